@@ -1172,9 +1172,12 @@ fn c02<X: L>(c: &mut Ctx, n: usize) {
             };
             match choice {
                 0 => {
-                    let f = &X::not_forms(&a)[2].1;
+                    // every syntactic form of NOT (a form that forgets to re-mask would leave a malformed value in the pool)
+                    let forms = X::not_forms(&a);
+                    let k = c.rng.below(forms.len());
+                    let f = &forms[k].1;
                     let r = call(|| f(&a));
-                    push(c, &mut pool, "not.trait_ref", vec![fl(&a)], r);
+                    push(c, &mut pool, &format!("not.{}", forms[k].0), vec![fl(&a)], r);
                 }
                 1..=3 => {
                     let forms = X::bin_forms();
@@ -1281,8 +1284,15 @@ fn c02<X: L>(c: &mut Ctx, n: usize) {
         // extensionality probes over the pool: eq / hash / cmp, and on pairs equal by construction
         let a = pool[c.rng.below(pool.len())].clone();
         let nn = {
-            let f = &X::not_forms(&a)[0].1;
-            f(&f(&a))
+            // both complementations are transcript lines of their own, so that a malformed intermediate is seen
+            let forms = X::not_forms(&a);
+            let k = c.rng.below(forms.len());
+            let f = &forms[k].1;
+            let n1 = f(&a);
+            c.emit(&format!("not.{}", forms[k].0), ty, &[fl(&a)], Some(fl(&n1)));
+            let n2 = f(&n1);
+            c.emit(&format!("not.{}", forms[k].0), ty, &[fl(&n1)], Some(fl(&n2)));
+            n2
         };
         let mut probes: Vec<(X, X)> = vec![(a.clone(), nn)];
         if n > 0 {
